@@ -27,6 +27,19 @@ CLAIMED = {
     ),
 }
 
+CLAIMED["C04"] = (
+    "Lean 4 proof (functional induction on the decrypt loop: chunk independence, exactness, promptness, safety under an "
+    "ideal AEAD, fail-closed) + constants regenerated from hap_crypto.py; differential correspondence with a "
+    "transparent mock AEAD on both sides; reference-codec oracle with real ChaCha20-Poly1305; protocol-level runs",
+    "Kernel-checked theorems for every payload list, every chunking into reads and every adversarial byte stream about "
+    "a model of HAPCrypto.decrypt / data_received; model compared with the implementation on boundary, exhaustive "
+    "2-cut, byte-at-a-time and random tamper cases each run; AEAD unforgeability is an explicit hypothesis record.",
+    BASE_NOTE + "AEAD correctness/unforgeability are hypotheses (`Correct`, `Ideal`) with proved instances; nonce "
+    "packing, AAD and HKDF labels are validated by testing against harness/ref/frames.py; asyncio delivers no data "
+    "after close().",
+    "DESIGN.md §3 C04",
+)
+
 NOT_YET = "not yet built in this round (model + theorems + correspondence pending; see DESIGN.md §7 build order)"
 NA = {}
 
